@@ -32,4 +32,4 @@ Deliverables in {out}/:
   patch.diff  - `git -C {wt} diff` of your change (source only)
   demo.py     - a small stand-alone program (run as `cd <checkout> && /venv/bin/python {out}/demo.py`) that exits 0 and prints PASS on the unchanged code and exits 1 and prints FAIL with your change applied; it must demonstrate the violation of the property as stated above through public API only
   meta.json   - {{"property": "{pid}", "summary": "...what was changed...", "needs": "...what is needed for it to manifest...", "tests_run": "...command and pass/fail counts before and after..."}}
-Before finishing: confirm demo.py FAILs with the patch and PASSes after `git -C {wt} stash` / `git -C {wt} stash pop`, and that the test-suite result is identical to the unchanged tree. Leave the worktree with your change applied. Reply with a 5-line summary.""")
+Before finishing: confirm demo.py FAILs with the patch and PASSes on the unchanged code (do NOT use `git stash`, the stash is shared between worktrees; use `git -C {wt} diff > {out}/patch.diff; git -C {wt} checkout -- .; <run demo>; git -C {wt} apply {out}/patch.diff`), and that the test-suite result is identical to the unchanged tree. Leave the worktree with your change applied. Reply with a 5-line summary.""")
